@@ -72,6 +72,7 @@ def handle (op : String) (args : List String) : String :=
         | some is => okRat (lxorAll is)
         | none => showErr .typeErr
     | "lognot", [a] => if a.den = 1 then okRat (lnot a.num) else showErr .typeErr
+    | "LessThan", [a, b] => okBool (lt a b)
     | "<", xs => okBool (chain lt xs)
     | "<=", xs => okBool (chain le xs)
     | ">", xs => okBool (chain gt xs)
